@@ -21,7 +21,7 @@ RULE = ('histories put x; (other puts / restores / purges of other entries / rem
         'was removed; distinct = (entry kind, trash-dir kind, sort, scope kind, parent removed)')
 ASSUMPTIONS = ['the premise is a successful trash-put: names that trash-put cannot trash (not valid UTF-8) are judged by C16',
                'listing lines are attributed to entries by (date, path); identical lines are interchangeable']
-PROBES = ['failed-attempt-then-retry', 'roundtrip-ok', 'parent-recreated', 'volume-trash', 'top-trash', 'custom-trash-dir', 'sort-none', 'sort-path', 'sort-date',
+PROBES = ['failed-attempt-then-retry', 'trash-dir-through-cross-volume-symlink', 'roundtrip-ok', 'parent-recreated', 'volume-trash', 'top-trash', 'custom-trash-dir', 'sort-none', 'sort-path', 'sort-date',
           'name-with-newline', 'from-ancestor', 'from-root', 'by-path-argument', 'collision-suffix']
 TECHNIQUE = 'deterministic simulation of put/.../restore histories; snapshot equality of the original subtree and frame diff of the restore step'
 LEVEL_TEXT = 'seeded round-trip law over names x kinds x layouts x sort modes x intervening histories, on the real commands end to end'
@@ -58,6 +58,12 @@ def gen(rng):
     tdopt = None
     if rng.random() < 0.15:
         tdopt = (home + '/customT') if vol == '/' else (vol + '/customT')
+        if vol != '/' and rng.random() < 0.5:
+            # the trash directory is named through a symlink that sits on another volume than the directory itself:
+            # put and restore must anchor a relative Path at the same top directory
+            steps.append(['d', vol + '/customT', 0o700])
+            steps.append(['l', home + '/tlink', vol + '/customT'])
+            tdopt = home + '/tlink'
         put_argv += ['--trash-dir', tdopt]
     put_argv += ['--', x if rng.random() < 0.5 else nm]
     procs = [{'argv': put_argv, 'env': env, 'cwd': d, 'uid': uid}]
@@ -249,6 +255,9 @@ def check(sim, case, st):
     if '--trash-dir' in put['argv']:
         tk = 'custom'
         st.probes['custom-trash-dir'] += 1
+        if any(a.endswith('/tlink') for a in put['argv']):
+            tk = 'custom-via-link'
+            st.probes['trash-dir-through-cross-volume-symlink'] += 1
     if '\n' in loc:
         st.probes['name-with-newline'] += 1
     if N != posixpath.basename(loc):
